@@ -177,7 +177,8 @@ func (srv *Server) Close() error {
 		}
 	}
 
-	close(srv.transportChan)
+	// The transport queue is left open: acceptors may still be sending on it and the consumer
+	// may still be selecting on it; both stop through the cancelled context.
 	return multierr.Combine(errs...)
 }
 
